@@ -18,6 +18,8 @@ package main
 //                imports.Process (goimports looks at the file system around the output file)
 //   sort         sort.Sort / sort.Stable / sort.Slice / sort.SliceStable / sort.Strings / sort.Ints
 //   marshal      yaml.Marshal / json.Marshal / json.NewEncoder (a library chooses the order of map keys)
+//   file-open / file-open-notrunc / file-positional  a file opened for writing with / without truncation
+//                (os.Create, os.OpenFile flags, WriteFile), writes at an offset: the history of -out
 //   tmpl-range   a {{range …}} action inside a string literal (text/template visits
 //                maps in sorted key order, slices in order)
 // A site is keyed by file::function::kind:normalised-expression#ordinal — never
@@ -67,6 +69,7 @@ var c19Patterns = map[string]string{
 	"location-normalised":      "locationNormalised",
 	"known-finding":            "knownFinding",
 	"explicit-import":          "explicitImport",
+	"fresh-file":               "freshFile",
 	"unclassified":             "unclassified",
 	"vanished":                 "vanished",
 }
@@ -548,6 +551,31 @@ func (sc *c19Scan) scanBody(pk *c19Pkg, rel, fn string, env *c19Env, body ast.No
 				}
 				if id, ok := x.Value.(*ast.Ident); ok {
 					sc.bind(env, id.Name, elemP, valT)
+				}
+			}
+		case *ast.CallExpr:
+			// files opened for writing: the history of the -out directory reaches the output through
+			// an open without truncation (no O_TRUNC, O_APPEND) or a positional write
+			if sel, ok := x.Fun.(*ast.SelectorExpr); ok {
+				q := sel.Sel.Name
+				if id, ok := sel.X.(*ast.Ident); ok {
+					q = id.Name + "." + q
+				}
+				switch {
+				case q == "os.OpenFile" && len(x.Args) >= 2:
+					flags := c19ExprString(sc.fset, x.Args[1])
+					if strings.Contains(flags, "O_RDONLY") && !strings.Contains(flags, "O_CREATE") {
+						break
+					}
+					if strings.Contains(flags, "O_TRUNC") && !strings.Contains(flags, "O_APPEND") {
+						add("file-open", "os.OpenFile("+flags+")")
+					} else {
+						add("file-open-notrunc", "os.OpenFile("+flags+")")
+					}
+				case q == "os.Create" || q == "ioutil.WriteFile" || q == "os.WriteFile":
+					add("file-open", q)
+				case sel.Sel.Name == "WriteAt" || sel.Sel.Name == "Seek" || sel.Sel.Name == "Truncate":
+					add("file-positional", "."+sel.Sel.Name)
 				}
 			}
 		case *ast.SelectorExpr:
